@@ -55,6 +55,9 @@ class DaqmxDataReader(BaseDataReader):
                     this_scaler_data = combined_data[:, byte_columns].ravel()
                     this_scaler_data = scaler.data_type.from_bytes(this_scaler_data, self.endianness)
                     processed_data = scaler.postprocess_data(this_scaler_data)
+                    if self.final_chunk_lengths_override is not None and chunk_index == self.num_chunks - 1:
+                        # Truncated chunk, only use the rows available for all scalers of this channel
+                        processed_data = processed_data[:self.final_chunk_lengths_override.get(obj.path, 0)]
                     if obj.data_type == types.DaqMxRawData:
                         scaler_data[obj.path][scaler.scale_id] = processed_data
                     else:
@@ -92,10 +95,9 @@ def get_daqmx_final_chunk_lengths(ordered_objects, chunk_size_bytes):
     for obj in ordered_objects:
         if not obj.has_data:
             continue
-        buffer_indices = list(set(s.raw_buffer_index for s in obj.daqmx_metadata.scalers))
-        if len(buffer_indices) == 1:
-            object_lengths[obj.path] = updated_buffer_lengths[buffer_indices[0]]
-        # Else scalers are in different buffers, not sure this is even valid
+        buffer_indices = set(s.raw_buffer_index for s in obj.daqmx_metadata.scalers)
+        # If scalers are in different buffers, only use the rows available for all scalers
+        object_lengths[obj.path] = min(updated_buffer_lengths[i] for i in buffer_indices)
     return object_lengths
 
 
